@@ -26,7 +26,7 @@ for pid in claimed:
         "engine": "cbmc-contracts",
         "level_claimed": {"category": m.get("level", "proof"), "text": m["level_text"], "design_ref": m.get("design_ref", "DESIGN.md section 3, " + pid)},
         "level_note": m["level_note"],
-        "technique": m.get("technique", "CBMC function and loop contracts (goto-instrument --dfcc) enforced per function on the real source"),
+        "technique": m.get("technique", "contract-based deductive verification with CBMC: per-function PRE/POST contracts (pure C spec functions, named obligations, explicit frame assertions) enforced on hand-instrumented harnesses over the real source, callees replaced by their contracts (stubs / assert-unreachable bodies), all loops closed by constant bounds with unwinding assertions"),
     })
 na = []
 for p in props:
